@@ -147,7 +147,7 @@ func (ex *Exec) instr(fr *Frame, in ssa.Instruction, st *State, pc *Term) *Term 
 			fv.Bind = append(fv.Bind, ex.val(fr, b))
 		}
 		fr.vals[x] = fv
-		if fn.Blocks != nil && fn.Synthetic == "" && len(fv.Bind) > 0 {
+		if fn.Blocks != nil && fn.Synthetic == "" && len(fv.Bind) > 0 && !onlyDeferred(x) {
 			fr.closures = append(fr.closures, fv)
 		}
 	case *ssa.MapUpdate:
@@ -891,4 +891,20 @@ func allocEscapes(a *ssa.Alloc) bool {
 		return false
 	}
 	return visit(a, 0)
+}
+
+// onlyDeferred: the closure value is used by defer statements only (it cannot escape into a callee).
+func onlyDeferred(m *ssa.MakeClosure) bool {
+	refs := m.Referrers()
+	if refs == nil {
+		return false
+	}
+	for _, r := range *refs {
+		switch r.(type) {
+		case *ssa.Defer, *ssa.DebugRef:
+		default:
+			return false
+		}
+	}
+	return true
 }
